@@ -14,7 +14,7 @@ MAP = [
  ("kept the current key as a view", "C05"), ("~CCsvWriteObjectScope threw", "C20"), ("constructor was declared noexcept", "C20"), ("IsEnd() never became true", "C20"),
  ("std::valarray used resize()", "C20"), ("kept waiting for the rest of an incomplete character", "C20"), ("JSON null in place of an object or array", "C18"),
  ("XML child-less element in place of an object or array", "C01"), ("JSON null in place of a string", "C18"), ("kept the content of the old item", "C18"),
- ("DetectEncoding never examined the last code unit", "C13"), ("binary timestamp with negative nanoseconds", "C01"), ("loading std::atomic ignored whether the value was loaded", "C03"), ("did not recognise U+DBFF", "C13"), ("Required validator must not be noexcept", "C20"), ("inserted an uninitialised value", "C10"), ("overtaken by its own consequences", "C10"), ("signed integer overflow (undefined behaviour) in the ISO-8601", "C02"), ("rewound to the wrong place", "C10"), ("kept the members its new value does not mention", "C18"), ("DECLARE_ENUM_STREAM_OPS never returned", "C02"), ("loading a multimap reversed the order", "C01"),
+ ("DetectEncoding never examined the last code unit", "C13"), ("binary timestamp with negative nanoseconds", "C01"), ("loading std::atomic ignored whether the value was loaded", "C03"), ("did not recognise U+DBFF", "C13"), ("Required validator must not be noexcept", "C20"), ("inserted an uninitialised value", "C10"), ("overtaken by its own consequences", "C10"), ("signed integer overflow (undefined behaviour) in the ISO-8601", "C02"), ("rewound to the wrong place", "C10"), ("kept the members its new value does not mention", "C18"), ("DECLARE_ENUM_STREAM_OPS never returned", "C02"), ("loading a multimap reversed the order", "C01"), ("std::bitset / std::vector<bool> that is not loaded", "C05"),
 ]
 
 def main():
